@@ -11,6 +11,7 @@ import gc
 
 from harness.common import leanproc
 from harness.common.shrink import ddmin
+from harness.common.util import InfraError
 from harness.common.vmachine import VMachine, BootError
 
 ID = "C11"
@@ -18,28 +19,47 @@ LEAN_MODULES = ["MpfVerif.Props.C11"]
 PROPS_FILE = "MpfVerif/Props/C11.lean"
 GEN = []
 MANIFEST = {
-    "text": "Proof on a Lean model of the player store (one insertion-ordered variable dictionary per player, Player.__setattr__ with its change event) and of a persisting game-mode device that only points into the current player's dictionary between mode start and mode stop: every request during one player's turn leaves every other player's dictionary unchanged (single step and over whole histories in which that player is never up); when a ball starts the device presents exactly the state stored in that player's dictionary, i.e. what it had at the end of the player's previous ball (turn change and extra ball); a new game / an added player starts from the configured initial values regardless of what an earlier game left; a variable assignment emits exactly one event with value, previous value (0 for a new variable), change (difference, or inequality for non-numbers) and the owner's player number iff it changed or is new. The hand model is tied to player.py / logic_blocks.py / game.py by a correspondence run on real 1-4 player games (events with arguments, every player's dictionary, device state after every op) and per-player shadow dictionaries and device snapshots kept independently by the harness.",
-    "note": "Trusted: Lean kernel + standard axioms; the hand-written Model/Player.lean (validated only by the differential run; nothing is machine-translated). Values in the model are immutable, so sharing of a mutable initial value between players cannot be expressed there: on the implementation it is sampled (object identity of the state objects of different players). Accruals, sequences and the non-persisting counter are checked by the oracle only (the model carries one persisting counter); shots, shot groups, achievements, timers and persisted enable flags are not exercised; variable_player's explicit `player:` target (which writes to another player on purpose) and float variables are outside the model.",
-    "technique": "Lean 4 theorems (frame lemmas over list updates, induction over the op list) on a hand model + differential correspondence and independent shadow-state oracle on real multi-player games",
+    "text": "Proof on a Lean model of the player store (one variable dictionary per player, Player.__setattr__ with its change event) and of an arbitrary list of persisting game-mode devices, each abstractly given by its player-variable key, fresh state, load rule and reaction to control events, which only point into the current player's dictionary between mode start and mode stop: every request (variable set/add, any device control event, shot-group rotation, player add, ball drain with or without extra ball) leaves the whole dictionary of every player who is not up unchanged, single step and over whole histories; when a ball starts every device presents load(state stored under its key by the player now up) or its fresh state - one theorem over the device list, keys pairwise distinct; a new game / an added player starts from the configured initial values and fresh device states regardless of what an earlier game left; a variable assignment emits exactly one event with value, previous value, change and the owner's player number iff it changed or is new. The model is instantiated with the device kinds of the property (logic-block counter, shot and profile state, shot group rotation, persisted enable flag, achievements with and without restart-on-next-ball, timer ticks) and tied to player.py / logic_blocks.py / shot.py / shot_group.py / enable_disable_mixin.py / achievement.py / timer.py / game.py by a correspondence run on real 1-4 player games (events with arguments, every player's dictionary incl. every device key after every op); per-player shadow dictionaries and shadow device states are kept independently by the harness.",
+    "note": "Trusted: Lean kernel + standard axioms; the hand-written Model/Player.lean (validated only by the differential run; nothing is machine-translated); the concrete load/act rules of the device kinds in the driver are validated by correspondence, the theorems hold for any such rules. Values in the model are immutable, so sharing of a mutable state object between players cannot be expressed there: on the implementation it is sampled (object identity of logic-block state objects and achievement entries of different players). Accruals, sequences and the non-persisting counter are checked by the oracle only (their values are lists / not stored). Timer ticks live in a player variable but restart from start_value with every ball (timer.py device_loaded_in_mode): modelled as a constant load rule. Shows of shots/achievements, variable_player's explicit `player:` target and float variables are outside the model.",
+    "technique": "Lean 4 theorems (frame lemmas over list updates, a fold lemma over the device list, induction over the op list) on a hand model + differential correspondence and independent shadow-state oracle on real multi-player games",
     "translated": False,
 }
-RULE = ("a case = initial player_vars (int and string), balls per game 1-3, counter goal 2-4 + 8-60 ops (start game, add "
-        "player, direct set of int/str/mixed-type variables, variable_player add/set incl. zero change and a new "
-        "variable, counter/accrual/sequence hits, extra ball award, ball drain, early game end, second game). "
-        "non-trivial = at least two players and at least three turn changes with differing per-player histories; "
-        "distinct = canonical JSON of (config, ops)")
+RULE = ("a case = initial player_vars (int and string), balls per game 1-3, counter goal 2-4 + 10-60 ops (start game, add "
+        "player, control events of a persisting counter, three shots with a 3-state profile (hit / reset), shot group "
+        "rotation, a persisted enable flag (enable / disable), two achievements (enable / start / complete / stop / "
+        "disable / reset), a timer (add / jump), accrual and sequence steps, direct set of int/str/mixed-type variables, "
+        "variable_player add/set, extra ball award, ball drain, early game end, second game). non-trivial = at least two "
+        "players and at least four ball starts; distinct = canonical JSON of (config, ops)")
 TRUSTED = ["modelled, not verified: the game mode's ball/turn rotation, mode start/stop at ball start/end, event queue "
-           "ordering (events are compared in the order the implementation posts them), Python object identity",
-           "Model/Player.lean is hand-written; tied to mpf/core/player.py, mpf/devices/logic_blocks.py (persist_state) "
-           "and mpf/modes/game/code/game.py by correspondence on every run"]
+           "ordering (events are compared in the order the implementation posts them), Python object identity, shows",
+           "Model/Player.lean is hand-written; tied to mpf/core/player.py, mpf/devices/{logic_blocks,shot,shot_group,"
+           "achievement,timer}.py, mpf/core/enable_disable_mixin.py and mpf/modes/game/code/game.py by correspondence"]
 ASSUMPTIONS = ["player variables hold ints or strings (no floats, no containers); `add` is only applied to int variables",
-               "no variable_player entry targets another player explicitly (`player:` option)"]
+               "no variable_player entry targets another player explicitly (`player:` option)",
+               "device keys are pairwise distinct and differ from `ball` / `extra_balls` (KeysOK)"]
 
 INT_VARS = ["pa", "score", "nv"]          # nv is not configured: created on first use
 ADD_VALUES = [1, 10, -3, 0, 100]
 SET_VALUES = [0, 5, 7, -2]
 STR_VALUES = ["abc", "xyz", "q"]
 TRACK = ["index", "number", "pa", "ps", "score", "nv", "mx", "ball", "extra_balls"]
+
+# the persisting devices of the game mode, in the order the model knows them (index = device number of the model):
+# (model line, player-variable key, control events in code order)
+DEVICES = [
+    ("counter cp_state %(goal)d", "cp_state", ["hit_c"]),
+    ("shot shot_sh1 3", "shot_sh1", ["go_sh1", "rst_sh1"]),
+    ("shot shot_sh2 3", "shot_sh2", ["go_sh2"]),
+    ("shot shot_sh3 3", "shot_sh3", ["go_sh3"]),
+    ("flag shot_shf_enabled", "shot_shf_enabled", ["shf_on", "shf_off"]),
+    ("ach achievements.a_keep 1", "achievements.a_keep",
+     ["ak_enable", "ak_start", "ak_complete", "ak_stop", "ak_disable", "ak_reset"]),
+    ("ach achievements.a_stop 0", "achievements.a_stop",
+     ["as_enable", "as_start", "as_complete", "as_stop", "as_disable", "as_reset"]),
+    ("timer m1_tm_tick 0", "m1_tm_tick", ["tm_add", "tm_jump"]),
+]
+DEV_KEYS = [d[1] for d in DEVICES]
+DEV_EVENT_VARS = ["shot_sh1", "shot_sh2", "shot_sh3", "shot_shf_enabled", "shot_sh1_enabled", "m1_tm_tick"]
 
 
 def vp_add(k, d):
@@ -64,7 +84,24 @@ def build(cfg):
             "    reset_on_complete: false", "    disable_on_complete: true",
             "sequences:", "  sp:", "    events: seq_0, seq_1, seq_2", "    persist_state: true",
             "    reset_on_complete: false", "    disable_on_complete: true",
-            "variable_player:"]
+            "shot_profiles:", "  prof3:", "    loop: false", "    states:", "      - name: unlit", "      - name: lit",
+            "      - name: done",
+            "shots:",
+            "  sh1:", "    profile: prof3", "    hit_events: go_sh1", "    reset_events: rst_sh1",
+            "  sh2:", "    profile: prof3", "    hit_events: go_sh2",
+            "  sh3:", "    profile: prof3", "    hit_events: go_sh3",
+            "  shf:", "    profile: prof3", "    enable_events: shf_on", "    disable_events: shf_off",
+            "shot_groups:", "  sg:", "    shots: sh2, sh3", "    rotate_right_events: sg_rot",
+            "achievements:"]
+    for name, pre, restart in (("a_keep", "ak", "true"), ("a_stop", "as", "false")):
+        mode += ["  %s:" % name, "    enable_events: %s_enable" % pre, "    start_events: %s_start" % pre,
+                 "    complete_events: %s_complete" % pre, "    stop_events: %s_stop" % pre,
+                 "    disable_events: %s_disable" % pre, "    reset_events: %s_reset" % pre,
+                 "    restart_on_next_ball_when_started: %s" % restart]
+    mode += ["timers:", "  tm:", "    start_value: 0", "    control_events:",
+             "      - event: tm_add", "        action: add", "        value: 2",
+             "      - event: tm_jump", "        action: jump", "        value: 7",
+             "variable_player:"]
     for k in INT_VARS:
         for d in ADD_VALUES:
             mode += ["  %s:" % vp_add(k, d), "    %s:" % k, "      int: %d" % d]
@@ -80,34 +117,48 @@ def gen_cfg(r):
             "ps": r.choice(["abc", "xyz"])}
 
 
+def gen_dev_op(r):
+    d = r.choice([0, 0, 1, 1, 1, 2, 3, 4, 4, 5, 5, 6, 6, 6, 7, 7])
+    n = len(DEVICES[d][2])
+    if d in (5, 6):
+        code = r.choice([0, 0, 1, 1, 2, 3, 4, 5])      # mostly along enable -> start -> complete / stop
+    elif d == 1:
+        code = r.choice([0, 0, 0, 1])
+    else:
+        code = r.randrange(n)
+    return ["dv", d, code]
+
+
 def gen_ops(r):
     ops = [["start"]]
     for _ in range(r.choice([0, 1, 1, 2, 3])):
         ops.append(["addplayer"])
-    n = r.randint(8, 60)
+    n = r.randint(10, 60)
     for _ in range(n):
         k = r.random()
-        if k < 0.16:
-            ops.append(["hit"])
-        elif k < 0.22:
+        if k < 0.34:
+            ops.append(gen_dev_op(r))
+        elif k < 0.38:
+            ops.append(["rot"])
+        elif k < 0.41:
             ops.append(["acc", r.randrange(3)])
-        elif k < 0.28:
+        elif k < 0.44:
             ops.append(["seq", r.randrange(3)])
-        elif k < 0.40:
+        elif k < 0.52:
             ops.append(["add", r.choice(INT_VARS), r.choice(ADD_VALUES)])
-        elif k < 0.48:
+        elif k < 0.57:
             ops.append(["vset", r.choice(INT_VARS), r.choice(SET_VALUES)])
-        elif k < 0.53:
-            ops.append(["vset", "ps", r.choice(STR_VALUES)])
         elif k < 0.60:
+            ops.append(["vset", "ps", r.choice(STR_VALUES)])
+        elif k < 0.65:
             ops.append(["set", r.choice(INT_VARS), r.choice(SET_VALUES + [1, 1000])])
-        elif k < 0.64:
+        elif k < 0.68:
             ops.append(["set", "ps", r.choice(STR_VALUES + [""])])
-        elif k < 0.69:
+        elif k < 0.72:
             ops.append(["set", "mx", r.choice([0, 3, "a", "b", ""])])       # a variable whose type changes
-        elif k < 0.73:
+        elif k < 0.76:
             ops.append(["extra"])
-        elif k < 0.93:
+        elif k < 0.94:
             ops.append(["drain"])
         elif k < 0.96:
             ops.append(["addplayer"])
@@ -125,12 +176,14 @@ def tok(v):
         return "i%d" % v
     if isinstance(v, str):
         return "s" + v.encode().hex()
+    if isinstance(v, tuple) and len(v) == 3:
+        return "b%s/%d/%d" % (v[0], 1 if v[1] else 0, 1 if v[2] else 0)
     return "?" + type(v).__name__
 
 
 def model_line(op):
     k = op[0]
-    if k in ("start", "addplayer", "hit", "drain", "endgame"):
+    if k in ("start", "addplayer", "drain", "endgame"):
         return k
     if k in ("set", "vset"):
         return "set %s %s" % (op[1], tok(op[2]))
@@ -138,11 +191,34 @@ def model_line(op):
         return "add %s %d" % (op[1], op[2])
     if k == "extra":
         return "add extra_balls 1"
+    if k == "dv":
+        return "dev %d %d" % (op[1], op[2])
+    if k == "rot":
+        return "swap 2 3"
     return None        # acc / seq: not in the model
 
 
-def blk(st):
-    return "b%s/%d/%d" % (st.value, 1 if st.enabled else 0, 1 if st.completed else 0)
+def blk_tuple(st):
+    v = st.value
+    return (list(v) if isinstance(v, list) else v, bool(st.enabled), bool(st.completed))
+
+
+def stored(p, key):
+    """the state a player's dictionary holds under a device key (None = nothing stored)"""
+    if key.startswith("achievements."):
+        a = p.vars.get("achievements") or {}
+        e = a.get(key.split(".", 1)[1])
+        return None if e is None else e[0]
+    v = p.vars.get(key)
+    if key.endswith("_state") and v is not None:
+        return blk_tuple(v)
+    return v
+
+
+FRESH = {"cp_state": (0, True, False), "shot_sh1": 0, "shot_sh2": 0, "shot_sh3": 0, "shot_shf_enabled": False,
+         "achievements.a_keep": "disabled", "achievements.a_stop": "disabled", "m1_tm_tick": 0,
+         "ap_state": ([False] * 3, True, False), "sp_state": (0, True, False)}
+ORACLE_ONLY_KEYS = ["ap_state", "sp_state"]
 
 
 class Run:
@@ -151,11 +227,11 @@ class Run:
         main, mode = build(cfg)
         self.vm = VMachine(main, modes={"m1": mode}, game=True)
         self.events = []
+        self.dev_events = []
 
     def start(self):
         self.vm.start()
         m = self.m = self.vm.machine
-        tc = self.vm.tc
 
         def _add_ball(**kwargs):
             m.playfield.balls += 1
@@ -167,7 +243,15 @@ class Run:
                 self.events.append((_n, kwargs.get("value"), kwargs.get("prev_value"), kwargs.get("change"),
                                     kwargs.get("player_num")))
             m.events.add_handler("player_" + name, h, priority=10 ** 6)
-        self.devs = {"cp": m.counters["cp"], "cn": m.counters["cn"], "ap": m.accruals["ap"], "sp": m.sequences["sp"]}
+        for name in DEV_EVENT_VARS:
+            def h2(_n=name, **kwargs):
+                self.dev_events.append((_n, kwargs.get("value"), kwargs.get("player_num")))
+            m.events.add_handler("player_" + name, h2, priority=10 ** 6)
+        self.cn = m.counters["cn"]
+        self.devobj = {"cp_state": m.counters["cp"], "shot_sh1": m.shots["sh1"], "shot_sh2": m.shots["sh2"],
+                       "shot_sh3": m.shots["sh3"], "shot_shf_enabled": m.shots["shf"],
+                       "achievements.a_keep": m.achievements["a_keep"], "achievements.a_stop": m.achievements["a_stop"],
+                       "m1_tm_tick": m.timers["tm"], "ap_state": m.accruals["ap"], "sp_state": m.sequences["sp"]}
         return self
 
     def stop(self):
@@ -181,6 +265,7 @@ class Run:
         m, vm, tc = self.m, self.vm, self.vm.tc
         k = op[0]
         self.events = []
+        self.dev_events = []
         try:
             if k in ("start", "addplayer"):
                 if k == "start" and m.game is not None:
@@ -199,8 +284,10 @@ class Run:
                 vm.post(vp_add(op[1], op[2]))
             elif k == "extra":
                 m.game.player.extra_balls += 1
-            elif k == "hit":
-                vm.post("hit_c")
+            elif k == "dv":
+                vm.post(DEVICES[op[1]][2][op[2]])
+            elif k == "rot":
+                vm.post("sg_rot")
             elif k == "acc":
                 vm.post("acc_%d" % op[1])
             elif k == "seq":
@@ -232,38 +319,88 @@ class Run:
         g = self.m.game
         return [] if g is None else list(g.player_list)
 
-    def dev_view(self, name):
-        d = self.devs[name]
-        return None if d._state is None else (d._state.value if not isinstance(d._state.value, list) else list(d._state.value),
-                                              bool(d._state.enabled), bool(d._state.completed))
+    def mode_on(self):
+        return self.m.modes["m1"].active
+
+    def presented(self, key):
+        """what the device object itself shows (through its pointer into the current player)"""
+        d = self.devobj[key]
+        if key.endswith("_state"):
+            return None if d._state is None else blk_tuple(d._state)
+        if key == "shot_shf_enabled":
+            return bool(d.enabled) if d.player is not None else None
+        if key.startswith("shot_"):
+            return d.state if d.player is not None else None
+        if key.startswith("achievements."):
+            return d.state
+        if key == "m1_tm_tick":
+            return d.ticks if d.player is not None and self.mode_on() else None
+        raise KeyError(key)
 
     def obs(self):
         pl = []
         for p in self.players():
-            items = []
+            items = {}
             for k, v in p.vars.items():
-                if k in ("restart_modes_on_next_ball", "ap_state", "sp_state", "cn_state"):
-                    continue
-                items.append("%s=%s" % (k, blk(v) if k == "cp_state" else tok(v)))
-            pl.append(",".join(items))
-        cp = self.devs["cp"]._state
-        return "cur=%s dev=%s ev=[%s] pl=[%s]" % (
-            self.cur() or "-", "-" if cp is None else blk(cp),
+                if k in TRACK:
+                    items[k] = tok(v)
+            had_ball = "ball" in p.vars
+            for key in DEV_KEYS:
+                v = stored(p, key)
+                if v is None and had_ball and key.startswith("shot_sh") and not key.endswith("_enabled"):
+                    v = 0       # a shot's state variable is only written on its first change; reading it gives 0
+                if v is not None:
+                    items[key] = tok(v)
+            pl.append(",".join("%s=%s" % (k, items[k]) for k in sorted(items)))
+        return "cur=%s mode=%s ev=[%s] pl=[%s]" % (
+            self.cur() or "-", (self.cur() if self.mode_on() else None) or "-",
             " ".join("%s:%s:%s:%s:%s" % (n, tok(v), tok(pv), tok(ch), num) for n, v, pv, ch, num in self.events),
             "|".join(pl))
 
 
-FRESH = {"cp": (0, True, False), "cn": (0, True, False), "ap": ([False] * 3, True, False), "sp": (0, True, False)}
 USER_VARS = ["pa", "ps", "score", "nv", "mx", "extra_balls"]
+ACH = {0: {"disabled": "enabled", "started": "enabled"}, 1: {"enabled": "started", "stopped": "started"},
+       2: {"started": "completed"}, 3: {"started": "stopped"}, 4: {"enabled": "disabled", "stopped": "disabled"}}
+
+
+def ref_act(key, code, v, goal):
+    """reference reaction of a device to its control event (documented behaviour of each device kind)"""
+    if key == "cp_state":
+        val, en, co = v
+        if not en:
+            return v
+        val += 1
+        if val >= goal and not co:
+            return (val, False, True)
+        return (val, en, co)
+    if key in ("shot_sh1", "shot_sh2", "shot_sh3"):
+        return 0 if code == 1 else min(v + 1, 2)
+    if key == "shot_shf_enabled":
+        return code == 0
+    if key.startswith("achievements."):
+        return "disabled" if code == 5 else ACH[code].get(v, v)
+    if key == "m1_tm_tick":
+        return v + 2 if code == 0 else 7
+    raise KeyError(key)
+
+
+def ref_load(key, v):
+    """what a device makes of the stored state when the player's next ball starts"""
+    if key == "achievements.a_stop" and v == "started":
+        return "stopped"        # restart_on_next_ball_when_started: false
+    if key == "m1_tm_tick":
+        return 0                # a timer restarts from start_value with every ball
+    return v
 
 
 class Oracle:
-    """shadow dictionaries and device snapshots per player, maintained from the ops alone"""
+    """shadow dictionaries and shadow device state per player, maintained from the ops alone"""
 
     def __init__(self, cfg):
         self.cfg = cfg
         self.shadow = []        # per player: dict of user variables
-        self.snap = []          # per player: device name -> last presented state
+        self.dev = []           # per player: device key -> shadow state (absent = never had a ball)
+        self.snap = []          # per player: oracle-only devices (accrual, sequence): last presented state
         self.bad = []
         self.turns = 0
 
@@ -283,9 +420,10 @@ class Oracle:
         expected_events = []
         # ---- game over / new game / new players
         if not players:
-            self.shadow, self.snap = [], []
+            self.shadow, self.dev, self.snap = [], [], []
         while len(self.shadow) < len(players):
             self.shadow.append(self.fresh_vars())
+            self.dev.append({})
             self.snap.append({})
             q = len(self.shadow) - 1
             # a new player starts from the configured initial values ...
@@ -293,7 +431,8 @@ class Oracle:
             if k in ("start", "addplayer") and got != self.fresh_vars():
                 self.fail("fresh:initial-values", op=op, player=q + 1, got=got, expected=self.fresh_vars())
         if len(self.shadow) > len(players):
-            self.shadow, self.snap = self.shadow[:len(players)], self.snap[:len(players)]
+            n = len(players)
+            self.shadow, self.dev, self.snap = self.shadow[:n], self.dev[:n], self.snap[:n]
         # ---- the request changes the current player's shadow only
         if cur_before is not None and k in ("set", "vset", "add", "extra") and players:
             sh = self.shadow[cur_before - 1]
@@ -312,13 +451,78 @@ class Oracle:
             sh = self.shadow[cur_before - 1]
             expected_events.append(("extra_balls", sh["extra_balls"] - 1, sh["extra_balls"], -1, cur_before))
             sh["extra_balls"] -= 1
-        # ---- every player's dictionary against its shadow (isolation: nobody else's changed)
+        # ---- device control events change the current player's shadow device state only
+        if cur_before is not None and players and self.dev[cur_before - 1]:
+            dv = self.dev[cur_before - 1]
+            if k == "dv":
+                key = DEVICES[op[1]][1]
+                if key in dv:
+                    dv[key] = ref_act(key, op[2], dv[key], self.cfg["goal"])
+            elif k == "rot" and "shot_sh2" in dv and "shot_sh3" in dv:
+                dv["shot_sh2"], dv["shot_sh3"] = dv["shot_sh3"], dv["shot_sh2"]
+        # ---- a ball starts: every device takes what its player stored (through its documented load rule) or starts fresh
+        ball_id = (cur, players[cur - 1].vars.get("ball"), players[cur - 1].vars.get("extra_balls", 0)) if cur else None
+        new_ball = cur is not None and ((k == "start" and cur_before is None) or (k == "drain" and ball_id != ball_id_before))
+        if new_ball:
+            self.turns += 1
+            dv = self.dev[cur - 1]
+            for key in DEV_KEYS:
+                dv[key] = ref_load(key, dv[key]) if key in dv else FRESH[key]
+                got = run.presented(key)
+                if got != dv[key]:
+                    self.fail("restore:device-state" if len(dv) == len(DEV_KEYS) and self.turns > 1 and key in dv
+                              else "fresh:device-state", op=op, device=key, player=cur, presented=got, expected=dv[key])
+            for key in ORACLE_ONLY_KEYS:
+                want = self.snap[cur - 1].get(key, FRESH[key])
+                if run.presented(key) != want:
+                    self.fail("restore:device-state", op=op, device=key, player=cur, presented=run.presented(key),
+                              expected=want)
+            if run.cn._state is None or blk_tuple(run.cn._state) != (0, True, False):
+                self.fail("fresh:device-state", op=op, device="cn (persist_state: false)", player=cur,
+                          presented=None if run.cn._state is None else blk_tuple(run.cn._state))
+            # no two players share a mutable state object
+            ids = {}
+            for q, p in enumerate(players):
+                objs = [(d, p.vars.get(d)) for d in ("cp_state", "ap_state", "sp_state", "achievements")]
+                a = p.vars.get("achievements") or {}
+                objs += [("achievements." + n, e) for n, e in a.items()]
+                for d, o in objs:
+                    if o is not None:
+                        if id(o) in ids:
+                            self.fail("fresh:aliasing", op=op, device=d, players=[ids[id(o)], q + 1])
+                        ids[id(o)] = q + 1
+        if cur is not None and run.mode_on():
+            for key in ORACLE_ONLY_KEYS:
+                self.snap[cur - 1][key] = run.presented(key)
+        # ---- every player's dictionary against its shadows (isolation: nobody else's changed)
         for q, p in enumerate(players):
             got = {v: p.vars[v] for v in USER_VARS if v in p.vars}
+            other = cur_before is not None and q != cur_before - 1 and (cur is None or q != cur - 1)
             if got != self.shadow[q] or [type(got[x]) for x in sorted(got)] != [type(self.shadow[q][x]) for x in sorted(got)]:
-                sig = "isolation:other-player-changed" if (cur_before is not None and q != cur_before - 1) else "own-vars-wrong"
-                self.fail(sig, op=op, player=q + 1, current_player=cur_before, got=got, expected=self.shadow[q])
+                self.fail("isolation:other-player-changed" if other else "own-vars-wrong", op=op, player=q + 1,
+                          current_player=cur_before, got=got, expected=self.shadow[q])
                 self.shadow[q] = dict(got)
+            for key in DEV_KEYS:
+                have = stored(p, key)
+                if have is None and key in ("shot_sh1", "shot_sh2", "shot_sh3") and self.dev[q]:
+                    have = 0
+                want = self.dev[q].get(key)
+                if have != want:
+                    self.fail("isolation:device-state-of-other-player" if other else "own-device-state-wrong", op=op,
+                              device=key, player=q + 1, current_player=cur, stored=have, expected=want)
+                    if have is not None:
+                        self.dev[q][key] = have     # resynchronise so that one defect is reported once
+            for key in ORACLE_ONLY_KEYS:
+                if cur is not None and q != cur - 1 and key in self.snap[q] and stored(p, key) != self.snap[q][key]:
+                    self.fail("isolation:device-state-of-other-player", op=op, device=key, player=q + 1,
+                              current_player=cur, stored=stored(p, key), expected=self.snap[q][key])
+                    self.snap[q][key] = stored(p, key)
+        # ---- what the devices present during the turn is the current player's stored state
+        if cur is not None and run.mode_on() and self.dev[cur - 1]:
+            for key in DEV_KEYS:
+                if run.presented(key) != self.dev[cur - 1].get(key):
+                    self.fail("device-presents-wrong-state", op=op, device=key, player=cur,
+                              presented=run.presented(key), expected=self.dev[cur - 1].get(key))
         # ---- events: exactly the expected ones for user variables, with exact arguments
         got_ev = [e for e in run.events if e[0] in USER_VARS and not (k in ("start", "addplayer"))]
         if [tuple(map(repr, e)) for e in got_ev] != [tuple(map(repr, e)) for e in expected_events]:
@@ -329,40 +533,10 @@ class Oracle:
                 self.fail("event:args", op=op, got=list(map(repr, e)), expected="ball +1 for the player whose turn starts")
             if k in ("start", "addplayer") and e[0] != "ball" and not (e[1] == e[2] and e[3] in (0, False)):
                 self.fail("event:args", op=op, got=list(map(repr, e)), expected="initial broadcast: value == prev_value")
-        # ---- devices
-        ball_id = (cur, players[cur - 1].vars.get("ball"), players[cur - 1].vars.get("extra_balls", 0)) if cur else None
-        if cur is not None and run.dev_view("cp") is not None:
-            new_ball = (k == "start" and cur_before is None) or (k == "drain" and ball_id != ball_id_before)
-            if new_ball:
-                self.turns += 1
-                for d in ("cp", "ap", "sp", "cn"):
-                    view = run.dev_view(d)
-                    want = FRESH[d] if (d == "cn" or d not in self.snap[cur - 1]) else self.snap[cur - 1][d]
-                    if view != want:
-                        self.fail("restore:device-state" if d != "cn" and d in self.snap[cur - 1] else "fresh:device-state",
-                                  op=op, device=d, player=cur, presented=view, expected=want)
-                # no two players share a state object
-                ids = {}
-                for q, p in enumerate(players):
-                    for d in ("cp", "ap", "sp"):
-                        o = p.vars.get(d + "_state")
-                        if o is not None:
-                            if id(o) in ids:
-                                self.fail("fresh:aliasing", op=op, device=d, players=[ids[id(o)], q + 1])
-                            ids[id(o)] = q + 1
-            for d in ("cp", "ap", "sp"):
-                self.snap[cur - 1][d] = run.dev_view(d)
-        # ---- the stored state of the players who are not up does not move
-        for q, p in enumerate(players):
-            if cur is not None and q != cur - 1:
-                for d in ("cp", "ap", "sp"):
-                    o = p.vars.get(d + "_state")
-                    if o is not None and d in self.snap[q]:
-                        now = (o.value if not isinstance(o.value, list) else list(o.value), bool(o.enabled), bool(o.completed))
-                        if now != self.snap[q][d]:
-                            self.fail("isolation:device-state-of-other-player", op=op, device=d, player=q + 1,
-                                      current_player=cur, stored=now, expected=self.snap[q][d])
-                            self.snap[q][d] = now
+        for name, value, num in run.dev_events:
+            if cur is not None and num != cur:
+                self.fail("event:device-var-for-wrong-player", op=op, event="player_" + name, value=repr(value),
+                          player_num=num, current_player=cur)
 
 
 def execute(cfg, ops, model):
@@ -373,7 +547,10 @@ def execute(cfg, ops, model):
     try:
         orc = Oracle(cfg)
         if model is not None:
-            model.ask("cfg %d 4 %d pa=%s ps=%s" % (cfg["bpg"], cfg["goal"], tok(cfg["pa"]), tok(cfg["ps"])))
+            model.ask("cfg %d 4 pa=%s ps=%s" % (cfg["bpg"], tok(cfg["pa"]), tok(cfg["ps"])))
+            for line, _, _ in DEVICES:
+                if model.ask("device " + line % cfg) != "ok":
+                    raise InfraError("model refused device " + line)
         for op in ops:
             cur0 = run.cur()
             pl0 = run.players()
@@ -399,8 +576,11 @@ def run_case(ctx, cfg, ops, model, sample=True):
     try:
         bad, comps, stats = execute(cfg, ops, model)
     except BootError as e:
-        ctx.count("config_rejected")
+        # the generated configurations are valid: a machine that does not boot is a crash of the code under test
+        ctx.count("boot_failed")
         ctx.evaluated(case, False, sample=False)
+        if not any(f["signature"] == "crash:boot" for f in ctx.failures):
+            ctx.fail("crash:boot", case, {"error": str(e)[:300]})
         return
     for o in ops:
         ctx.count("op_" + o[0])
